@@ -271,7 +271,7 @@ class Fn:
             yield b, i, e
 
     # -- path queries at event granularity ---------------------------------
-    def path_exists(self, start, goal, avoid, kill_on_throw=True, avoid_blocks=()):
+    def path_exists(self, start, goal, avoid, kill_on_throw=True, avoid_blocks=(), avoid_edges=()):
         """Is there a CFG path from just after `start` (block, idx) -- or from
         function entry if start is None -- to an event satisfying `goal`
         (a predicate) or, if goal == 'exit', to the normal function exit,
@@ -310,7 +310,7 @@ class Fn:
                     return list(path)
                 continue
             for s in self.succs(b):
-                if s in seen:
+                if s in seen or (b, s) in avoid_edges:
                     continue
                 seen.add(s)
                 stack.append((s, 0, path + (s,)))
@@ -326,6 +326,32 @@ class Fn:
         if a[0] == b[0]:
             return a[1] <= b[1]
         return a[0] in self.dominators().get(b[0], ())
+
+    def loops(self):
+        """Natural loops: {header block: set of body blocks (incl. header)}."""
+        dom = self.dominators()
+        preds = self.preds()
+        res = {}
+        for t in self.reachable():
+            for h in self.succs(t):
+                if h in dom.get(t, ()):
+                    body = res.setdefault(h, {h})
+                    st = [t]
+                    while st:
+                        x = st.pop()
+                        if x in body:
+                            continue
+                        body.add(x)
+                        st.extend(p for p in preds[x] if p in self.reachable())
+        return res
+
+    def loop_depth(self, b):
+        return sum(1 for h, body in self.loops().items() if b in body)
+
+    def loops_of(self, b):
+        """Headers of the loops containing block b, innermost first."""
+        ls = [(len(body), h) for h, body in self.loops().items() if b in body]
+        return [h for _, h in sorted(ls)]
 
     def ret_events(self):
         return [(b, i, e) for b, i, e in self.events() if e["k"] == "ret"]
